@@ -1,8 +1,11 @@
 #!/venv/bin/python
 """corr_oppoint.py: correspondence of Models/OpPoint.v with Pipeline.find_operating_point: the real method is run on
 pipelines whose system / pump heads are cheap synthetic curves (so thousands of shapes can be covered: crossing,
-tangent, no crossing, jump, flat), every evaluation of the head gap is recorded, and the model is replayed on the
-recorded gap table; outcome, root and the sequence of visited flows are compared bit for bit."""
+tangent, no crossing, jump, flat, kinked, a second crossing left of qimin, pump tables with a finite range that raise
+IndexError outside it); every evaluation of the head gap is recorded per phase (feasibility test, unbracketed secant
+search, the test at the largest flow, bracketing solver, residual test); the model is replayed on the recorded gap table
+of the secant phase, the set of flows at which the evaluation raised, and the bracketing solver's answer (an oracle);
+outcome, root and the sequence of flows visited by the secant search are compared bit for bit."""
 import argparse
 import math
 import random
@@ -26,20 +29,30 @@ def main():
     st.ulp = 0
     reqs, expect = [], []
     dist = {}
+    import scipy.optimize as so
+    orig_rs = so.root_scalar
     for i in range(a.n):
-        shape = rng.choice(['crossing', 'crossing', 'steep', 'tangent', 'none', 'jump', 'flat', 'infeasible'])
+        shape = rng.choice(['crossing', 'crossing', 'steep', 'tangent', 'none', 'jump', 'flat', 'infeasible', 'kinked', 'kinked', 'left', 'cliff'])
         A, B = rng.uniform(5, 60), rng.uniform(0.5, 20)
         C, D_ = rng.uniform(20, 120), rng.uniform(0.5, 15)
         qimin = rng.uniform(0.2, 1.5)
         qlast = qimin + rng.uniform(0.5, 6)
         jump_at = rng.uniform(qimin, qlast)
+        # a pump / driver table of finite range: evaluations outside it raise IndexError, as interpDict does
+        limited_range = rng.random() < 0.45
+        q_hi_tab = qlast * rng.uniform(1.0, 1.6)
+        kink = rng.uniform(5, 80)
 
         def sys_head(q):
             if shape == 'flat':
                 return A
+            if shape == 'left':      # a bump left of qimin: a second crossing the search must not return
+                return A + B * (q - qimin) ** 2 + 0.8 * C * math.exp(-((q - 0.3 * qimin) / (0.2 * qimin)) ** 2)
             return A + B * (q - qimin) ** 2 + (0.3 * B / max(q, 1e-3) if shape == 'steep' else 0.0)
 
         def pump_head(q):
+            if limited_range and (q < 0 or q > q_hi_tab):
+                raise IndexError(f'Key {q} out of range (0.0 - {q_hi_tab})')
             if shape == 'none':
                 return sys_head(q) + 1.0 + 0.1 * q
             if shape == 'infeasible':
@@ -49,31 +62,72 @@ def main():
                 h = sys_head(q) + (q - (qimin + qlast) / 2) ** 2 * 3
             if shape == 'jump' and q > jump_at:
                 h -= 25.0
+            if shape == 'kinked' and q > jump_at:       # continuous, but the slope changes abruptly (a torque limit)
+                h -= kink * (q - jump_at) ** 0.35
+            if shape == 'cliff' and q > jump_at:        # continuous and very steep
+                h -= kink * 40 * (q - jump_at)
             return h
-        visited = []
+        events = []          # (phase, q, gap | None when the evaluation raised)
+        phase = ['feasibility']
+        bracket = {}
         pl = PipeObj.Pipeline.__new__(PipeObj.Pipeline)
         pl.qimin = lambda flow_list, precision=0.02: qimin
 
         def csh(q):
             q = float(q)
-            hs, hp = sys_head(q), pump_head(q)
-            visited.append((q, hs - hp))
+            try:
+                hs, hp = sys_head(q), pump_head(q)
+            except IndexError:
+                events.append((phase[0], q, None, None, None))
+                raise
+            events.append((phase[0], q, hs - hp, hs, hp))
             return (hs, 0.0, 0.0, hp)
         pl.calc_system_head = csh
-        o = py_outcome(pl.find_operating_point, [0.1, qlast])
-        table = visited[1:]          # the first evaluation is the feasibility test at qimin
-        hs0, hp0 = sys_head(qimin), pump_head(qimin)
+
+        def rs(f, *args, **kw):
+            if 'bracket' in kw:
+                phase[0] = 'bracket'
+                try:
+                    r = orig_rs(f, *args, **kw)
+                    bracket['conv'], bracket['root'] = bool(r.converged), float(r.root)
+                    return r
+                finally:
+                    phase[0] = 'residual'
+            phase[0] = 'secant'
+            try:
+                return orig_rs(f, *args, **kw)
+            finally:
+                phase[0] = 'qlast'
+        so.root_scalar = rs
+        try:
+            o = py_outcome(pl.find_operating_point, [0.1, qlast])
+        finally:
+            so.root_scalar = orig_rs
+        hs0, hp0 = sys_head(qimin), pump_head(qimin) if not limited_range or 0 <= qimin <= q_hi_tab else (0.0, 0.0)
+        sec = [e for e in events if e[0] == 'secant']
+        ql = [e for e in events if e[0] == 'qlast']
+        table = [(q, g) for (_, q, g, _, _) in sec + ql if g is not None]
+        bad = [q for (_, q, g, _, _) in sec + ql if g is None]
+        res_ev = [e for e in events if e[0] == 'residual']
+        if bracket and res_ev and res_ev[-1][2] is not None:
+            bconv, broot, hs_b, hp_b = bracket['conv'], bracket['root'], res_ev[-1][3], res_ev[-1][4]
+        else:
+            bconv, broot, hs_b, hp_b = False, 0.0, 1.0, 0.0
         flat = [str(len(table))]
         for q, g in table:
             flat += [hx(q), hx(g)]
+        flat += [str(len(bad))] + [hx(q) for q in bad]
+        flat += ['1' if bconv else '0', hx(broot), hx(hs_b), hx(hp_b)]
         reqs.append(('OpPoint.find', [hx(qimin), hx(qlast), hx(hs0), hx(hp0)] + flat))
         if o[0] == 'ok':
             want = ['root', float(o[1])]
         else:
             want = [o[1]]
-        want += ['@visited', str(len(table))] + [q for q, _ in table]
-        expect.append(({'shape': shape, 'qimin': qimin, 'qlast': qlast, 'coeffs': [A, B, C, D_]}, want))
-        k = shape + ':' + ('root' if o[0] == 'ok' else o[1])
+        want += ['@visited', str(len(sec))] + [q for (_, q, _, _, _) in sec]
+        expect.append(({'shape': shape, 'qimin': qimin, 'qlast': qlast, 'coeffs': [A, B, C, D_], 'jump_at': jump_at, 'kink': kink,
+                        'limited_range': limited_range, 'q_hi_tab': q_hi_tab}, want))
+        path = 'infeasible' if not sec else ('secant' if not ql else ('bracket' if bracket else 'no-crossing-at-qlast'))
+        k = shape + ':' + path + ':' + ('root' if o[0] == 'ok' else o[1]) + (':IndexError-swallowed' if any(g is None for (_, _, g, _, _) in sec) else '')
         dist[k] = dist.get(k, 0) + 1
     replies = Driver().batch(reqs)
     for (inp, want), rep in zip(expect, replies):
